@@ -318,7 +318,13 @@ def r08_10(ctx: Ctx) -> None:
     f = ctx.prog.func("archiveinfo", "Header.initialize")
     n = 0
     for a in walk(f.node):
-        if not (isinstance(a, ast.Assign) and isinstance(a.value, ast.Call) and isinstance(a.value.func, ast.Name) and a.value.func.id in ("FilesInfo", "StreamsInfo")):
+        if not isinstance(a, ast.Assign):
+            continue
+        val = a.value
+        if isinstance(val, ast.Name):
+            vs = q.assigned_values(f, val.id)
+            val = vs[0] if len(vs) == 1 else val
+        if not (isinstance(val, ast.Call) and isinstance(val.func, ast.Name) and val.func.id in ("FilesInfo", "StreamsInfo")):
             continue
         for t in a.targets:
             if not (isinstance(t, ast.Attribute) and isinstance(t.value, ast.Name) and t.value.id == "self"):
@@ -330,7 +336,7 @@ def r08_10(ctx: Ctx) -> None:
                       f"`{norm(a)}` runs without the fact `{norm(t)} is None`: in append mode the member table / stream description read from the existing archive is "
                       "replaced by an empty one (base with only directories or empty files: IndexError in write()/close() after the old header was overwritten, all old members lost)",
                       construct=f"fresh {norm(t)}")
-    ctx.floor("R08.10", n, 2, "fresh section objects in Header.initialize")
+    ctx.floor("R08.10", n, 1, "fresh section objects in Header.initialize")
 
 
 def r08_11(ctx: Ctx, rule: str = "R08.11") -> None:
